@@ -65,7 +65,6 @@ func (m ClientState) CheckHeaderAndUpdateState(
 	// if pruneHeight is set, delete consensus state and metadata
 	if pruneHeight != nil {
 		deleteConsensusState(store, pruneHeight)
-		DeleteSigner(store, clienttypes.NewHeight(pruneHeight.GetRevisionNumber(), pruneHeight.GetRevisionHeight()))
 	}
 
 	newClientState, consensusState, err := update(cdc, store, &m, bscHeader)
